@@ -40,8 +40,8 @@ def _spawn(flavour: str):
         text=True,
         bufsize=1,
     )
-    line = _readline(p, 120.0)
-    if line is None:
+    line = _readline(p, 600.0)  # importing liquid can take minutes on a badly overloaded machine
+    if not line:
         _kill(p)
         raise RuntimeError("c09 child did not start")
     return p
@@ -93,7 +93,12 @@ def run_job(job: dict, flavour: str = "std", wall_limit: float = 90.0) -> dict:
     for attempt in (0, 1):
         p = _children.get(key)
         if p is None or p.poll() is not None:
-            p = _children[key] = _spawn(flavour)
+            try:
+                p = _children[key] = _spawn(flavour)
+            except RuntimeError:
+                if attempt == 0:
+                    continue
+                raise
         try:
             p.stdin.write(json.dumps(job) + "\n")
             p.stdin.flush()
